@@ -259,6 +259,18 @@ def rule_progress(report, prog):
                      'sends the same command forever')
     else:
         report.fail('C08-R3', key(t4.qname, 'read loop'), t4.loc(), 'Type 4 read loop not found')
+    # the memory readers hand out bytes they have read or raise: the fill loops swallow no command error (the TLV parser and the
+    # NDEF readers index and unpack the result on that promise, guarded only against TagCommandError)
+    for q in ('nfc.tag.tt2.Type2TagMemoryReader._read_from_tag', 'nfc.tag.tt1.Type1TagMemoryReader._read_from_tag'):
+        g = prog.functions.get(q)
+        if g is None:
+            continue
+        n += 1
+        swallow = [h for t in ast.walk(g.node) if isinstance(t, ast.Try) for h in t.handlers
+                   if not (isinstance(last_live(h.body), ast.Raise) and not any(isinstance(x, (ast.Break, ast.Return, ast.Continue)) for x in ast.walk(h)))]
+        report.check(not swallow, 'C08-R3', key(q, 'a failed read is never turned into a short memory image'), g.loc(swallow[0]) if swallow else g.loc(),
+                     '%s handles a command error and carries on: __getitem__ then indexes a cache that is shorter than the requested range '
+                     '(IndexError / struct.error out of tag.ndef)' % q)
     report.floor('C08-R3', n, 9)
 
 
